@@ -200,7 +200,7 @@ Definition step_of_model (cfg : cfgT) (w : wobs) (e : env) (cmd : command) (um :
   let st := snd r in
   MkStep e cmd um (rclass_of (fst r)) (rev (s_log st)) (MkDelta (map fst (wo_fs w)) (w_fs (s_w st)))
          (ks_tab (w_ks (s_w st))) (ks_nextid (w_ks (s_w st))) (ks_nextdev (w_ks (s_w st)))
-         (match fst r with Ret (Some ld) => Some (map lobs_of (ld_map ld)) | _ => None end).
+         (match fst r with Ret (Some ld) => Some (map lobs_of (ld_map ld)) | _ => None end) [].
 Definition c_cov : LC.case := MkCase cfg0 (wo_fs w_cov) (wo_ks w_cov) [step_of_model cfg0 w_cov e0 (CUmount [] true) []].
 Definition c_cov_single : LC.case :=
   MkCase cfg0 (wo_fs w_cov) (wo_ks w_cov) [step_of_model cfg0 w_cov e0 (CUmount (bs "a") false) []].
@@ -229,7 +229,7 @@ Definition bad_single_step : step :=
   MkStep e0 (CUmount (bs "a") false) [] ROk
          [OUmount (bs "/b/layers/a/build/var/db/repos") 0; OUmount (bs "/b/layers/a/build/var/db") 0]
          (MkDelta [] [])
-         [rootline; line "21" "20" "/b/layers/a/build/var/db/repos" "ext4" "/dev/sdb" rw] 40 5 None.
+         [rootline; line "21" "20" "/b/layers/a/build/var/db/repos" "ext4" "/dev/sdb" rw] 40 5 None [].
 Definition c_cov_bad : LC.case := MkCase cfg0 (wo_fs w_cov) (wo_ks w_cov) [bad_single_step].
 Example covered_left_behind_rejected :
   C03.wf c_cov_bad = true /\ C03.kf c_cov_bad = 0%N /\ C03.spec c_cov_bad = false.
